@@ -17,7 +17,7 @@ var mixC07 = Mix{Set: 22, Delete: 9, Get: 4, GetItem: 5, Exist: 2, MinMax: 4, To
 func init() {
 	register(&Prop{
 		ID: "C07", Level: "fault_enumeration",
-		Rule: "case = one seeded history of 10-30 operations that re-opens early and often (so lookups, visits and mutations really read the file) incl. NewStore, lookups, visits, iterators, mutations, EvictSomeItems, CopyTo, Flush, FlushRevert, snapshot reads. Pass 1 runs it fault-free and records every StoreFile call per operation. Pass 2 re-runs the history from scratch once per FAULT POINT: for every operation i and every call k = 1..calls(i) of that operation (and every destination-file call of CopyTo) the k-th call fails - ReadAt outright or short; WriteAt outright or torn after j bytes (j in {1, len/2, len-1, len}; every j for writes <= 48 bytes in the thorough tier); Stat; Truncate. Then: the call in progress must return an error and not panic or exceed the logical scan bound; the hook walk must find no wrongly marked/freed reachable node; the file image right after the fault must re-open to the last durable state (or, for a root record that landed completely although the write reported an error, the new one); after the fault clears, a complete read-back must equal the model in which the failed call had no effect, and up to 6 further random operations, 3 mutations, a (retried) Flush, a read-back, a re-open and a final read-back must all agree with the model (after a failed FlushRevert or open the store is re-opened first). evaluations counts fault-point executions. Non-trivial = the fault fired inside an operation of the history; distinct = distinct (history, operation index, call index, variant).",
+		Rule: "case = one seeded history of 10-30 operations that re-opens early and often (so lookups, visits and mutations really read the file) incl. NewStore, lookups, visits, iterators, mutations, EvictSomeItems, CopyTo, Flush, FlushRevert, snapshot reads. Pass 1 runs it fault-free and records every StoreFile call per operation. Pass 2 re-runs the history from scratch once per FAULT POINT: for every operation i and every call k = 1..calls(i) of that operation (and every destination-file call of CopyTo) the k-th call fails - ReadAt outright, short with the injected error, or short with io.EOF; WriteAt outright or torn after j bytes (j in {1, len/2, len-1, len}; every j for writes <= 48 bytes in the thorough tier); Stat; Truncate. Then: the call in progress must return an error and not panic or exceed the logical scan bound; the hook walk must find no wrongly marked/freed reachable node; the file image right after the fault must re-open to the last durable state (or, for a root record that landed completely although the write reported an error, the new one); after the fault clears, a complete read-back must equal the model in which the failed call had no effect, and up to 6 further random operations, 3 mutations, a (retried) Flush, a read-back, a re-open and a final read-back must all agree with the model (after a failed FlushRevert or open the store is re-opened first). evaluations counts fault-point executions. Non-trivial = the fault fired inside an operation of the history; distinct = distinct (history, operation index, call index, variant).",
 		Assumptions: []string{
 			"a fault is only expected to surface if the faulted call was actually issued (the plan records whether it fired)",
 			"EvictSomeItems and Exist have no error result: only the no-panic / change-nothing clauses apply; a wrong Exist answer is reported under its own signature",
@@ -28,7 +28,7 @@ func init() {
 		Floor: func(tier string, st map[string]int64) string {
 			need := []string{"fault-points", "fault.fired/op=Open/ReadAt", "fault.fired/op=Open/Stat", "fault.fired/op=Flush/WriteAt", "fault.fired/op=Set/ReadAt", "fault.fired/op=Delete/ReadAt",
 				"fault.fired/op=GetItem/ReadAt", "fault.fired/op=Visit/ReadAt", "fault.fired/op=FlushRevert/ReadAt", "fault.fired/op=FlushRevert/Truncate", "fault.fired/op=CopyTo/ReadAt", "fault.fired/op=CopyTo(dst)/WriteAt",
-				"c07.torn-writes", "c07.short-reads", "c07.retried-flush-ok"}
+				"c07.torn-writes", "c07.short-reads", "c07.short-reads-with-EOF", "c07.retried-flush-ok"}
 			for _, k := range need {
 				if st[k] == 0 {
 					return "no " + k + " observed"
@@ -40,8 +40,9 @@ func init() {
 }
 
 type c07Point struct {
-	op      int // step index
-	call    int // 1-based call number within the op (on the main file, or dst file when dst)
+	eof     bool // short read reported as io.EOF
+	op      int  // step index
+	call    int  // 1-based call number within the op (on the main file, or dst file when dst)
 	partial int
 	dst     bool
 	kind    vfile.Kind
@@ -141,6 +142,10 @@ func runC07(ctx *Ctx, idx int) Result {
 			for _, p := range partials(ctx, c.Kind, c.Len) {
 				pts = append(pts, c07Point{op: i, call: k + 1, partial: p, kind: c.Kind, length: c.Len})
 			}
+			if c.Kind == vfile.KRead && c.Len > 1 && (k%3 == 0 || ctx.Thorough()) {
+				// a short read that the file reports as io.EOF (e.g. the file was cut behind the store's back)
+				pts = append(pts, c07Point{op: i, call: k + 1, partial: c.Len / 2, kind: c.Kind, length: c.Len, eof: true})
+			}
 		}
 		for k := 1; k <= sc.dst; k++ {
 			pts = append(pts, c07Point{op: i, call: k, partial: -1, dst: true})
@@ -228,7 +233,10 @@ func runC07Point(ctx *Ctx, idx int, pt c07Point, nSteps int) (*Viol, bool) {
 	if e.Failed() {
 		return violOf(e), false
 	}
-	ft := &vfile.Fault{Nth: pt.call, Partial: pt.partial}
+	ft := &vfile.Fault{Nth: pt.call, Partial: pt.partial, EOF: pt.eof}
+	if pt.eof {
+		e.Stats["c07.short-reads-with-EOF"]++
+	}
 	durableBefore := e.M.Durable()
 	pendingBefore := e.M.Live.Clone()
 	if pt.dst {
